@@ -90,7 +90,7 @@ var c01Pool6 = []plugChoice{
 	{"nbp", [][]string{{"tftp://[2001:db8::1]/boot.efi"}, {"http://host/path?params=a+b"}, {"http://boot.example/ipxe"}}},
 	{"searchdomains", [][]string{{"example.com", "a.b.c"}}},
 	{"file", [][]string{{"$DIR/leases6.txt"}, {"$DIR/leases6.txt", "autorefresh"}}},
-	{"prefix", [][]string{{"2001:db8:0:100::/62", "64"}, {"2001:db8:0:100::/56", "60"}}},
+	{"prefix", [][]string{{"2001:db8:0:100::/62", "64"}, {"2001:db8:0:100::/56", "60"}, {"fd00::/48", "64"}}},
 	{"sleep", [][]string{{"1ms"}}},
 }
 
@@ -183,6 +183,9 @@ func genDgram4x(c *Ctx, relay net.IP, mut bool) ([]byte, string) {
 	if r.Pct(20) {
 		s.extra[54] = [][]byte{{10, 0, 0, 1}, {10, 9, 9, 9}, {0, 0, 0, 0}, {1, 2}}[r.Intn(4)]
 	}
+	if r.Pct(15) { // PXE clients: architecture, network interface id, machine identifier
+		s.extra[[]uint8{97, 97, 93, 94, 60}[r.Intn(5)]] = [][]byte{{0, 1, 2, 3, 4, 5, 6, 7, 8, 9, 10, 11, 12, 13, 14, 15, 16}, {0, 7}, {1, 2, 1}, []byte("PXEClient")}[r.Intn(4)]
+	}
 	raw := buildReq4(s)
 	label := fmt.Sprintf("v4 mt=%x chaddr=%x", s.mtype, s.chaddr)
 	if !mut {
@@ -241,7 +244,7 @@ func genDgram6x(c *Ctx, held *[]net.IPNet, mut bool) ([]byte, string) {
 			case 3:
 				h = pdHint{ip: net.ParseIP("2001:db8:0:101::"), plen: 64}
 			case 4:
-				h = pdHint{ip: net.ParseIP("2001:db8:ffff::"), plen: 48}
+				h = []pdHint{{ip: net.ParseIP("2001:db8:ffff::"), plen: 48}, {ip: net.ParseIP("fdff:ffff:ffff:ffff::"), plen: 8}, {ip: net.ParseIP("fd00:0:0:ffff:ffff::"), plen: 40}}[r.Intn(3)]
 			case 5:
 				if len(*held) > 0 {
 					p := (*held)[r.Intn(len(*held))]
@@ -546,6 +549,9 @@ func emitAsmCases(c *Ctx, spec chainSpec, res chainResult) {
 		var chain []string
 		supported := true
 		for _, p := range plugs {
+			if pl := builtin[p.Name]; pl != nil && ((proto == 4 && pl.Setup4 == nil) || (proto == 6 && pl.Setup6 == nil)) {
+				continue // no set-up function for this protocol: LoadPlugins skips it
+			}
 			switch p.Name {
 			case "range":
 				d, _ := time.ParseDuration(p.Args[3])
@@ -898,6 +904,9 @@ func runRealChains11(c *Ctx) {
 					bad = fmt.Sprintf("option %d not echoed", code)
 				}
 			}
+			if v, had := req.Options[61]; (!had || len(v) == 0) && len(rp.Options[61]) > 0 {
+				bad = fmt.Sprintf("the reply carries a client identifier (%x) although the request had none", rp.Options[61])
+			}
 			if bad != "" {
 				c.vio("C11", "reply-mismatch", fmt.Sprintf("%s: chain [%s]: the reply does not match its request: %s", scenario, chainNames(spec.Plugins4), bad), input)
 			}
@@ -917,6 +926,42 @@ func runRealChains11(c *Ctx) {
 			Plugins4: []chainPlug{{"server_id", []string{"10.0.0.1"}}, {"range", []string{"$DIR/leases.sqlite3", "10.0.0.10", "10.0.0.12", "1h"}}, {"dns", []string{"1.1.1.1"}}}}
 		if res, err := runChainChild(spec, 60*time.Second); err == nil && res.SetupErr == "" {
 			judge(spec, res, "range exhausted")
+			emitAsmCases(c, spec, res)
+		}
+	}
+	{
+		// a static client asks (option 50) for an address other than the one its lease-file entry gives it,
+		// through a relay and with a client identifier: whatever the answer is, it is addressed like any other
+		var dg []chainDgram
+		for i, want := range [][]byte{{10, 8, 0, 1}, {10, 8, 0, 77}, {10, 0, 0, 10}, {1, 2, 3}} {
+			s := req4spec{op: 1, mtype: []byte{3}, chaddr: []byte{2, 0xaa, 0, 0, 0, 1}, xid: uint32(0x5e0000 + i), giaddr: net.IP{10, 8, 0, 254},
+				opt61: []byte{1, 2, 0xaa, 0, 0, 0, 1}, opt82: []byte{1, 4, 9, 9, 9, 9}, extra: map[uint8][]byte{50: want}}
+			dg = append(dg, chainDgram{Proto: 4, Hex: hex.EncodeToString(buildReq4(s)), Oob: 7001, Peer: "10.8.0.254"})
+		}
+		spec := chainSpec{Files: files, WatchdogMs: 3000, Dgrams: dg,
+			Plugins4: []chainPlug{{"server_id", []string{"10.0.0.1"}}, {"file", []string{"$DIR/leases4.txt"}}, {"dns", []string{"1.1.1.1"}}}}
+		if res, err := runChainChild(spec, 60*time.Second); err == nil && res.SetupErr == "" {
+			judge(spec, res, "static client requesting another address")
+			emitAsmCases(c, spec, res)
+		}
+	}
+	{
+		// PXE clients (machine identifier, architecture, NIC id) with and without a client identifier, booting through nbp
+		var dg []chainDgram
+		for i, ex := range []map[uint8][]byte{
+			{97: {0, 1, 2, 3, 4, 5, 6, 7, 8, 9, 10, 11, 12, 13, 14, 15, 16}, 55: {66, 67, 1, 3}},
+			{97: {0, 9, 9, 9, 9, 9, 9, 9, 9, 9, 9, 9, 9, 9, 9, 9, 9}, 93: {0, 7}, 94: {1, 2, 1}, 60: []byte("PXEClient"), 55: {67}},
+			{55: {66, 67}}, {97: {0, 1}}} {
+			s := req4spec{op: 1, mtype: []byte{[]byte{1, 3}[i%2]}, chaddr: []byte{2, 0x97, 0, 0, 0, byte(i)}, xid: uint32(0x970000 + i), bflag: true, extra: ex}
+			if i%2 == 1 {
+				s.opt61 = []byte{1, 2, 0x97, 0, 0, 0, byte(i)}
+			}
+			dg = append(dg, chainDgram{Proto: 4, Hex: hex.EncodeToString(buildReq4(s)), Oob: 7001, Peer: "0.0.0.0"})
+		}
+		spec := chainSpec{Files: files, WatchdogMs: 3000, Dgrams: dg,
+			Plugins4: []chainPlug{{"server_id", []string{"10.0.0.1"}}, {"dns", []string{"1.1.1.1"}}, {"nbp", []string{"tftp://10.0.0.1/boot.efi"}}}}
+		if res, err := runChainChild(spec, 60*time.Second); err == nil && res.SetupErr == "" {
+			judge(spec, res, "PXE clients through nbp")
 			emitAsmCases(c, spec, res)
 		}
 	}
